@@ -8,7 +8,7 @@ from . import engine, gen, oracles
 
 def gen_cfg(rng, deterministic=False, averaging_p=0.3, noise_p=0.25, box_p=0.35, proj_p=0.08, reg_p=0.08,
             restarts_p=0.45, nmax=4, mmax=7, maxfuns=(12, 25, 40, 60, 100), kinds=("linear", "sinlin", "exp", "rosen"),
-            allow=("restarts", "regression", "growing", "tols", "random_init", "rare"), npt_p=0.3, term_p=0.3):
+            allow=("restarts", "regression", "growing", "tols", "random_init", "rare"), npt_p=0.3, term_p=0.3, forms_p=0.12):
     r = rng.random
     spec = gen.gen_problem(rng, kinds=kinds, nmax=nmax, mmax=mmax, noise_p=(0.0 if deterministic else noise_p))
     n = spec["n"]
@@ -78,6 +78,13 @@ def gen_cfg(rng, deterministic=False, averaging_p=0.3, noise_p=0.25, box_p=0.35,
         elif u < 0.9 and up.get("restarts.use_restarts") and up.get("restarts.use_soft_restarts", True) \
                 and "restarts.soft.max_fake_successful_steps" not in up:
             up["restarts.soft.max_fake_successful_steps"] = int(rng.integers(1, 4))
+    if forms_p > 0:
+        # calling forms (views, numpy scalars, residual functions that return lists / one re-used buffer, overwrite or keep their
+        # argument): value-preserving, drawn from a child generator so that no other draw moves
+        fg = np.random.default_rng([int(oracles.cfg_hash(cfg)[:8], 16), 31])
+        forms = gen.sample_forms(fg, p=forms_p)
+        if forms:
+            cfg["_forms"] = forms
     return cfg
 
 
